@@ -136,14 +136,15 @@ impl RegisterBase {
             .expect_iport_kind(store)?
             .write(address, buf, device, store, cx);
 
+        // Drop everything an earlier access cached for this register, under whatever
+        // (address, length) key: the key varies when the address or the length is node-valued
+        // (`pAddress`, `pIndex`, `pLength`), and an entry under another key that covers the
+        // written bytes would otherwise hide this write once the key returns to it. The same
+        // holds when the port reports a failure: the device may have applied the write, or a
+        // part of it, before failing.
+        cx.invalidate_cache_of(nid);
         if res.is_ok() && self.cacheable == CachingMode::WriteThrough {
             cx.cache_data(nid, address, length, buf);
-        } else {
-            // The written data is not cached: drop what an earlier read cached for this
-            // register, otherwise the next read would return the value from before the write.
-            // The same holds when the port reports a failure: the device may have applied the
-            // write, or a part of it, before failing.
-            cx.invalidate_cache_of(nid);
         }
         res
     }
